@@ -21,9 +21,9 @@ theorem fmp4Segments_sat (F : Flags) (G : FGuards F) (htab : fromFMP4Decodable =
     obtain ⟨dt, payload⟩ := x
     unfold fmp4Segments
     refine sat_bind (fmp4ProcessSegment_sat F G htab elapsed s hs c hc hp dt payload) ?_
-    rintro ⟨s1, c1, ev⟩ ⟨h1, h2, _, h4, _, _⟩
-    simp only at h1 h2 h4 ⊢
-    refine sat_bind (ih s1 c1 h1 h2 (fun _ => h4)) ?_
+    rintro ⟨s1, c1, ev⟩ ⟨h1, h2, h3, _, _⟩
+    simp only at h1 h2 h3 ⊢
+    refine sat_bind (ih s1 c1 h1 h2 h3) ?_
     rintro ⟨s2, c2, evs⟩ _
     simp
 
@@ -128,13 +128,6 @@ theorem streamStart_tracks (F : Flags) (hz : F.zeroTimeScale = true) (hf : F.fil
         | wedge => rw [hst] at hsp; simp [Bind.bind, Res.bind] at hsp
       · simp at hsp
 
-theorem Res.bind_eq_ok {α β} {x : Res α} {f : α → Res β} {b : β} (h : (x >>= f) = .ok b) : ∃ a, x = .ok a ∧ f a = .ok b := by
-  cases x with
-  | ok a => exact ⟨a, rfl, h⟩
-  | error e => simp [Bind.bind, Res.bind] at h
-  | panic k => simp [Bind.bind, Res.bind] at h
-  | wedge => simp [Bind.bind, Res.bind] at h
-
 theorem startAll_tracks (F : Flags) (hz : F.zeroTimeScale = true) (hf : F.filtersUnsupported = true)
     (htab : mpegtsSupportedKnown = true) (streams : List StreamIn) :
     ∀ (sIdx firstIdx : Nat) started, startAll F sIdx firstIdx streams = .ok started →
@@ -193,7 +186,7 @@ theorem runStreams_exposed (F : Flags) (hz : F.zeroTimeScale = true) (hf : F.fil
     simp only
     split
     · simp [Outcome.exposed]
-    · cases processAll F elapsed {} started with
+    · cases processAll F elapsed true {} started with
       | panic k => simp [Outcome.exposed]
       | wedge => simp [Outcome.exposed]
       | error e => simpa [Outcome.exposed] using hv
@@ -213,28 +206,6 @@ theorem clientRun_exposed (F : Flags) (hz : F.zeroTimeScale = true) (hf : F.filt
 
 
 /-! ### MPEG-TS: a segment without a call-back of the leading track -/
-
-/-- partial correctness: a returned value satisfies `P` -/
-def Res.post {α} (P : α → Prop) (r : Res α) : Prop := ∀ a, r = .ok a → P a
-
-theorem Res.post_bind {α β} {P : α → Prop} {Q : β → Prop} {x : Res α} {f : α → Res β}
-    (hx : x.post P) (hf : ∀ a, P a → (f a).post Q) : (x >>= f).post Q := by
-  intro b hb
-  obtain ⟨a, ha, hfa⟩ := Res.bind_eq_ok hb
-  exact hf a (hx a ha) b hfa
-
-theorem Res.post_ok {α} {P : α → Prop} {a : α} (h : P a) : (Res.ok a).post P := by
-  intro b hb; cases hb; exact h
-
-theorem Res.post_pure {α} {P : α → Prop} {a : α} (h : P a) : (pure a : Res α).post P := Res.post_ok h
-
-theorem Res.post_error {α} {P : α → Prop} {e : ErrClass} : (Res.error e : Res α).post P := by
-  intro b hb; cases hb
-
-theorem Res.post_panic {α} {P : α → Prop} {k : PanicKind} : (Res.panic k : Res α).post P := by
-  intro b hb; cases hb
-
-theorem Res.post_true {α} (r : Res α) : r.post (fun _ => True) := fun _ _ => trivial
 
 theorem tsProcessSample_found (F : Flags) (elapsed : Int) (s : TStream) (dateTime : Option Int) (st : TSState) (c : ClientSt)
     (i : Nat) (hl : (i == s.leadingIdx) = false) (rawPTS rawDTS : Int) (pid : Nat) :
